@@ -6,10 +6,12 @@ import (
 	"encoding/binary"
 	"encoding/json"
 	"fmt"
+	"net"
 	"sort"
 	"sync"
 	"time"
 
+	"github.com/ansible/receptor/pkg/backends"
 	"github.com/ansible/receptor/pkg/logger"
 	"github.com/ansible/receptor/pkg/netceptor"
 	"github.com/minio/highwayhash"
@@ -133,13 +135,15 @@ type Link struct {
 	gen     int
 	silent  bool
 	stream  [2]*ChunkConn
+	sockPort, proxyPort int
+	sockSplits int64
 }
 
 // StreamSplits reports how many reads of the current framed stream ended inside buffered data (both directions).
 func (l *Link) StreamSplits() int64 {
 	l.mu.Lock()
 	defer l.mu.Unlock()
-	var n int64
+	n := l.sockSplits
 	for _, c := range l.stream {
 		if c != nil {
 			n += c.SplitReads()
@@ -192,6 +196,10 @@ func (m *Mesh) attach(node *Node, l *Link) {
 	} else {
 		mods = append(mods, netceptor.BackendConnectionCost(cost))
 	}
+	if l.Spec.Socket != "" {
+		m.attachSocket(node, l, mods)
+		return
+	}
 	if len(l.Spec.Frame) > 0 {
 		sb := NewStreamBackend()
 		_ = node.N.AddBackend(sb.EB, mods...)
@@ -243,6 +251,9 @@ func (m *Mesh) AddLink(l *Link) {
 
 func (m *Mesh) supervise(l *Link) {
 	defer m.wg.Done()
+	if l.Spec.Socket != "" {
+		return // the dialer backend of pkg/backends re-dials by itself
+	}
 	for {
 		if m.ctx.Err() != nil {
 			return
@@ -481,3 +492,107 @@ func SortedKeys(m map[string]string) []string {
 }
 
 func Sprint(a ...interface{}) string { return fmt.Sprint(a...) }
+
+// attachSocket connects a link through the real backends of pkg/backends: end A listens (TCP or websocket), end B
+// dials a loopback proxy that forwards to A and re-chunks the byte stream into the drawn piece sizes.
+func (m *Mesh) attachSocket(node *Node, l *Link, mods []func(*netceptor.BackendInfo)) {
+	l.mu.Lock()
+	if l.sockPort == 0 {
+		l.sockPort, l.proxyPort = freePort(), freePort()
+		go chunkProxy(m.ctx, l.proxyPort, l.sockPort, l.Spec.Frame, l)
+	}
+	lp, pp := l.sockPort, l.proxyPort
+	l.mu.Unlock()
+	var be netceptor.Backend
+	var err error
+	isA := node.ID == l.A
+	switch {
+	case l.Spec.Socket == "tcp" && isA:
+		be, err = backends.NewTCPListener(fmt.Sprintf("127.0.0.1:%d", lp), nil, node.N.Logger)
+	case l.Spec.Socket == "tcp":
+		be, err = backends.NewTCPDialer(fmt.Sprintf("127.0.0.1:%d", pp), true, nil, node.N.Logger)
+	case isA:
+		be, err = backends.NewWebsocketListener(fmt.Sprintf("127.0.0.1:%d", lp), nil, node.N.Logger, nil, nil)
+	default:
+		be, err = backends.NewWebsocketDialer(fmt.Sprintf("ws://127.0.0.1:%d", pp), nil, "", true, node.N.Logger, nil)
+	}
+	if err == nil {
+		_ = node.N.AddBackend(be, mods...)
+	}
+}
+
+func freePort() int {
+	ln, err := net.Listen("tcp", "127.0.0.1:0")
+	if err != nil {
+		return 0
+	}
+	defer ln.Close()
+	return ln.Addr().(*net.TCPAddr).Port
+}
+
+// chunkProxy forwards TCP connections from listenPort to targetPort, writing the bytes in pieces of the drawn sizes
+// (TCP_NODELAY, a short pause between pieces) so that the receiver's reads see the stream fragmented.
+func chunkProxy(ctx context.Context, listenPort, targetPort int, chunks []int, l *Link) {
+	ln, err := net.Listen("tcp", fmt.Sprintf("127.0.0.1:%d", listenPort))
+	if err != nil {
+		return
+	}
+	go func() { <-ctx.Done(); ln.Close() }()
+	for {
+		c, err := ln.Accept()
+		if err != nil {
+			return
+		}
+		go func(c net.Conn) {
+			var t net.Conn
+			for i := 0; i < 50; i++ {
+				t, err = net.DialTimeout("tcp", fmt.Sprintf("127.0.0.1:%d", targetPort), time.Second)
+				if err == nil {
+					break
+				}
+				time.Sleep(100 * time.Millisecond)
+			}
+			if err != nil {
+				c.Close()
+				return
+			}
+			pipe := func(dst, src net.Conn) {
+				defer dst.Close()
+				defer src.Close()
+				if tc, ok := dst.(*net.TCPConn); ok {
+					_ = tc.SetNoDelay(true)
+				}
+				buf := make([]byte, 1<<16)
+				k := 0
+				for {
+					n, err := src.Read(buf)
+					b := buf[:n]
+					for len(b) > 0 {
+						sz := len(b)
+						if len(chunks) > 0 {
+							if c := chunks[k%len(chunks)]; c > 0 && c < sz {
+								sz = c
+								l.mu.Lock()
+								l.sockSplits++
+								l.mu.Unlock()
+							}
+							k++
+						}
+						if _, werr := dst.Write(b[:sz]); werr != nil {
+							return
+						}
+						b = b[sz:]
+						if len(b) > 0 {
+							time.Sleep(50 * time.Microsecond) // keeps a 16 KiB frame well under the nodes' (shortened) idle limit
+						}
+					}
+					if err != nil {
+						return
+					}
+				}
+			}
+			go pipe(t, c)
+			pipe(c, t)
+		}(c)
+	}
+}
